@@ -1216,9 +1216,9 @@ pub fn c02() -> Check {
         assumptions: &["transport delivers every datagram with latency < probe_rtt/4 and the runtime fires timers exactly at their deadline (the simulator does)", "discovery bound 4n+4 periods instantiates the statement's 'linear in the cluster size'"],
         required: &["fault_free_runs", "runs_with_complete_relation", "sim_datagram/Ping", "sim_datagram/Feed"],
         workloads: vec![
-            Workload { name: "faultfree", f: c02_case, quick: 10_000, thorough: 200_000, flav: Flav::Checked },
-            Workload { name: "long", f: c02_long, quick: 160, thorough: 8_000, flav: Flav::Checked },
-            Workload { name: "feedfit", f: c02_feedfit, quick: 1_200, thorough: 40_000, flav: Flav::Checked },
+            Workload { name: "faultfree", f: c02_case, quick: 40_000, thorough: 200_000, flav: Flav::Checked },
+            Workload { name: "long", f: c02_long, quick: 480, thorough: 8_000, flav: Flav::Checked },
+            Workload { name: "feedfit", f: c02_feedfit, quick: 4_800, thorough: 40_000, flav: Flav::Checked },
         ],
         exhaustive: false,
         aggregate: None,
@@ -1233,9 +1233,9 @@ pub fn c03() -> Check {
         assumptions: &["latency < probe_rtt/4, timers on time; remove_down_after far beyond the horizon"],
         required: &["crash_faults", "leave_faults"],
         workloads: vec![
-            Workload { name: "crash", f: c03_case, quick: 2_400, thorough: 240_000, flav: Flav::Checked },
-            Workload { name: "leave_early", f: c03_leave_early, quick: 800, thorough: 80_000, flav: Flav::Checked },
-            Workload { name: "staged", f: c03_staged, quick: 1_600, thorough: 60_000, flav: Flav::Checked },
+            Workload { name: "crash", f: c03_case, quick: 12_000, thorough: 240_000, flav: Flav::Checked },
+            Workload { name: "leave_early", f: c03_leave_early, quick: 4_000, thorough: 80_000, flav: Flav::Checked },
+            Workload { name: "staged", f: c03_staged, quick: 6_400, thorough: 60_000, flav: Flav::Checked },
         ],
         exhaustive: false,
         aggregate: None,
@@ -1250,8 +1250,8 @@ pub fn c04() -> Check {
         assumptions: &["the envelope makes SWIM's refutation race deterministic; outside it the property is probabilistic and carries no verdict"],
         required: &["single_loss_runs", "runs_with_suspicion_raised_and_refuted", "dropped/Ping", "dropped/Ack", "dropped/Feed", "dropped/Gossip"],
         workloads: vec![
-            Workload { name: "drop", f: c04_case, quick: 3_200, thorough: 320_000, flav: Flav::Checked },
-            Workload { name: "realistic", f: c04_realistic, quick: 3_200, thorough: 160_000, flav: Flav::Checked },
+            Workload { name: "drop", f: c04_case, quick: 16_000, thorough: 320_000, flav: Flav::Checked },
+            Workload { name: "realistic", f: c04_realistic, quick: 8_000, thorough: 160_000, flav: Flav::Checked },
         ],
         exhaustive: false,
         aggregate: Some(c04_aggregate),
@@ -1266,8 +1266,8 @@ pub fn c05() -> Check {
         assumptions: &["announce-to-down num_members >= n so that every Down record is announced to each period (with fewer, which record is picked is random and no finite bound is deterministic)"],
         required: &["partitions_healed", "instances_renewed", "split_cases", "asymmetric_cases"],
         workloads: vec![
-            Workload { name: "partition", f: c05_case, quick: 3_200, thorough: 200_000, flav: Flav::Checked },
-            Workload { name: "repartition", f: c05_repartition, quick: 400, thorough: 20_000, flav: Flav::Checked },
+            Workload { name: "partition", f: c05_case, quick: 16_000, thorough: 200_000, flav: Flav::Checked },
+            Workload { name: "repartition", f: c05_repartition, quick: 2_400, thorough: 20_000, flav: Flav::Checked },
         ],
         exhaustive: false,
         aggregate: None,
